@@ -19,7 +19,7 @@ import (
 // algebrautils.MultiScalarMul is NOT called with length 0: it cannot know the monoid without a
 // point and panics by design (documented by the lead, not a finding).
 
-// MSMCase: vectors of length 0, 1, 2, 3, 7, 8, 9, 17, 64 (7/8 is the naive/bucket switch of the
+// MSMCase: vectors of length 0, 1, 2, 3, 7, 8, 9, 17, 64, 127..512 (7/8 is the naive/bucket switch of the
 // implementation) with repeated points, identity points, zero / one / N-1 scalars.
 // Oracle: n <= 3 (and a drawn sixth of the longer ones): refcurve.MultiScalarMul directly;
 // longer vectors: every pool point is [a]G + [e]T8 with (a, e) known by construction, so the model
@@ -27,7 +27,9 @@ import (
 func (g *G[P, F, S]) MSMCase(t *rapid.T) {
 	const test = "MultiScalarMul"
 	c := g.ref
-	n := rapid.SampledFrom([]int{0, 1, 1, 2, 2, 3, 7, 8, 9, 17, 17, 64}).Draw(t, "n")
+	// the bucket method's window width is bits.Len(n): the tail of long vectors crosses the
+	// widths 8 -> 9 -> 10 (n = 255 / 256 / 257, 511 / 512), where window digits outgrow a byte
+	n := rapid.SampledFrom([]int{0, 1, 1, 2, 2, 3, 7, 8, 9, 17, 17, 64, 64, 127, 128, 255, 256, 257, 300, 512}).Draw(t, "n")
 	methods := []string{"autils", "autilsNat"}
 	if g.msm != nil {
 		methods = []string{"MultiScalarMul", "MultiScalarMul", "MultiScalarOp", "autils", "autilsNat"}
